@@ -231,7 +231,10 @@ func (e editor) node(from *Selection, to *Selection, m meta.HasDataDefinitions, 
 		if toChild, err = to.selekt(&toRequest); err != nil {
 			return err
 		}
-		defer toChild.Release()
+		if toChild != nil {
+			// nil when a constraint of the request hides the node
+			defer toChild.Release()
+		}
 		newChild = true
 	case editUpsert:
 
